@@ -44,12 +44,14 @@ Inductive err :=
 | AssertionError        (* the asserts in unify; the "not supposed to get here" in the finder *)
 | TypeError             (* `raise last_exc` with last_exc = None in map_sum *)
 | RuntimeError          (* "failed to infer kinds" *)
-| UnableToInferKind.    (* escaping from the final consistency loop *)
+| UnableToInferKind     (* escaping from the final consistency loop *)
+| FunctionNotFound.     (* function_registry[function_id] in map_generic_call (a KeyError) *)
 
 Definition err_eqb (a b : err) : bool :=
   match a, b with
   | ValueError, ValueError | AssertionError, AssertionError | TypeError, TypeError
-  | RuntimeError, RuntimeError | UnableToInferKind, UnableToInferKind => true
+  | RuntimeError, RuntimeError | UnableToInferKind, UnableToInferKind
+  | FunctionNotFound, FunctionNotFound => true
   | _, _ => false
   end.
 
